@@ -157,7 +157,7 @@ func XMLDoc(r *rand.Rand) (doc string, toks []XTok) {
 			body += " ["
 			for j := r.Intn(3); j >= 0; j-- {
 				body += Pick(r, []string{"<!ENTITY a \"b>c]d\">", "<!ELEMENT x (#PCDATA)>", "<!ATTLIST x y CDATA #IMPLIED>", "\n", " ", "<!ENTITY % p \"q\">", "<!ENTITY w \"Writer's name\">", "<!ENTITY q \"'>]'\">",
-					"<!ENTITY rb ']'>", "<!ENTITY lb '['>", "<!ENTITY dq '\"'>", "<!ENTITY gt '>'>", "<!-- a ] comment -->", "<!-- see [1 -->", "<!-- it's \"odd\" > -->", "<!ENTITY sq \"'\">"})
+					"<!ENTITY rb ']'>", "<!ENTITY lb '['>", "<!ENTITY dq '\"'>", "<!ENTITY gt '>'>", "<!-- a ] comment -->", "<!-- see [1 -->", "<!-- it's \"odd\" > -->", "<!ENTITY sq \"'\">", "<?app idx[0 ?>", "<?x ] y?>", "<?q z]]?>"})
 			}
 			body += "]"
 		}
